@@ -6,7 +6,9 @@ package main
 import (
 	"fmt"
 	"os"
+	"runtime/debug"
 	"strconv"
+	"strings"
 
 	"verifharness/kit"
 
@@ -30,7 +32,35 @@ func main() {
 	}
 	kit.InstallLogSink()
 	c := kit.NewCtx(prop, tier, seed, shard, nshards, outdir)
-	f(c)
+	func() {
+		defer func() {
+			r := recover()
+			if r == nil {
+				return
+			}
+			st := string(debug.Stack())
+			// a panic raised inside ipchub code (called synchronously by the check) is ipchub's: let the process die
+			// with its trace, check.py attributes it. A panic in the oracle itself must not discard what the shard
+			// has observed so far: it becomes an INCONCLUSIVE entry and the shard's results are still written.
+			if i := strings.Index(st, "\npanic("); i >= 0 {
+				first := ""
+				for _, ln := range strings.Split(st[i+1:], "\n")[1:] {
+					if ln == "" || ln[0] == '\t' || strings.HasPrefix(ln, "runtime.") || strings.HasPrefix(ln, "panic(") {
+						continue
+					}
+					first = ln // the function that panicked
+					break
+				}
+				if strings.Contains(first, "github.com/cnotch/ipchub/") {
+					panic(r)
+				}
+				c.Inconclusive(fmt.Sprintf("oracle panicked (%v) at %s", r, strings.TrimSpace(first)))
+				return
+			}
+			c.Inconclusive(fmt.Sprintf("oracle panicked (%v)", r))
+		}()
+		f(c)
+	}()
 	if err := c.Finish(); err != nil {
 		fmt.Fprintln(os.Stderr, "finish:", err)
 		os.Exit(2)
